@@ -33,6 +33,7 @@ git stash -q -- $(git diff --name-only) 2>/dev/null || git checkout -q -- $(git 
 echo "== demo WITHOUT patch:"
 go test -count=1 -timeout 120s $run $demo_dir 2>&1 | tail -3
 cd /verif
+[ -n "$NOCHECK" ] && exit 0
 echo "== check $prop with patch applied to /repo:"
 git -C /repo apply $src/patch.diff && ./check $prop 2>&1 | grep -E "VIOLATION|KNOWN|TOOL-FAULT|discharged|failed obligation" | cut -c1-260 | head -12; echo "exit=${PIPESTATUS[0]}"
 git -C /repo apply -R $src/patch.diff
